@@ -3,8 +3,9 @@
 Proof: Props/C06.v (Model/Store.v, Proofs/StoreFacts.v): every backend's bookkeeping refines a finite
 map for ALL operation sequences; the framing of encode.py / file_store round-trips given the byte codecs.
 Tie: random operation sequences are run against the REAL store objects (file_store with and without
-compress_numpy, with pack operations, dict_store with and without backing file, redis_store on the
-in-process fake server); every observed result, and for file stores the final packed/raw/encoded split,
+compress_numpy, with pack operations - complete ones and ones killed after the new pack file is in place
+but before all the result files it replaces are unlinked, which leaves keys both in the pack and as
+files -, dict_store with and without backing file, redis_store on the in-process fake server); every observed result, and for file stores the final packed/raw/encoded split,
 is compared with the model inside coqc.  The on-disk form of every value of the universe is compared
 with Model.Store.file_frame / stream_frame.
 Search (independent of Coq): the same runs are compared with a plain Python dict.
@@ -23,6 +24,7 @@ from . import core
 from .core import zlit, natlit, boollit, listlit, optlit
 from . import jugrun
 from . import fakeredis
+from . import storefaults
 
 import numpy as np
 import jug.backends.file_store as fsmod
@@ -35,9 +37,10 @@ EVIDENCE = dict(
     level='proof',
     rule='case = one operation sequence (<= 25 operations over 4 keys) on one store configuration, with the result of every '
          'operation as observed on the real store; non-trivial when it contains a dump followed by at least one observing '
-         'operation (load/can_load/list/remove/remove_many/cleanup/pack/reopen); distinct = distinct (configuration, operations) '
+         'operation (load/can_load/list/remove/remove_many/cleanup/pack/killed pack/reopen); distinct = distinct (configuration, operations) '
          'tuples; besides the random sequences, one round-trip sequence (dump, load, pack, reopen, load, list, remove) per '
-         '(value of the universe, configuration).  Frame cases = (value, compress_numpy) pairs.',
+         '(value of the universe, configuration; the removal is remove / remove_many / cleanup in turn; on the packing '
+         'configuration the pack is complete or killed before its first unlink).  Frame cases = (value, compress_numpy) pairs.',
     explanation='Coq refinement theorems (file/dict/redis bookkeeping vs. a finite map, all operation sequences) + framing '
                 'round-trip under codec hypotheses; differential evaluation of the model against the real stores; '
                 'direct comparison of the real stores with a Python dict; sampled codec hypotheses',
@@ -376,9 +379,12 @@ class Driver:
             fakeredis.install(self.server)
         self.store = self._open()
 
+    def jugdir(self):
+        return self.scratch + '/jugdata'
+
     def _open(self):
         if self.backend == 'file':
-            return file_store(self.scratch + '/jugdata', compress_numpy=self.opts['compress'])
+            return file_store(self.jugdir(), compress_numpy=self.opts['compress'])
         if self.backend == 'dict':
             return dict_store(self.scratch + '/dict_store.pkl') if self.opts['backed'] else dict_store()
         return redis_store('redis://localhost/')
@@ -474,6 +480,12 @@ def apply_op(drv, op, U):
         if kind == 'reopen':
             drv.reopen()
             return ('unit',)
+        if kind == 'pack_crash':
+            # `jug pack` dies at its (n+1)-th unlink of a result file; the next process opens the directory
+            if drv.backend == 'file':
+                storefaults.killed_pack(st, drv.jugdir(), op[1])
+                drv.store = drv._open()
+            return ('unit',)
     except Exception as e:          # anything unexpected is an observation, not a crash of the check
         return ('err', err_code(e), '%s: %s' % (type(e).__name__, str(e)[:120]))
     raise ValueError('unknown op %r' % (op,))
@@ -503,14 +515,16 @@ def oracle_step(d, op):
         for k in [k for k in d if k not in op[1]]:
             del d[k]
         return 'noerr'
-    if kind in ('pack', 'reopen'):
+    if kind in ('pack', 'reopen', 'pack_crash'):
         return 'noerr'
     raise ValueError(kind)
 
 
-def satisfies(expected, obs):
+def satisfies(expected, obs, keys_as_set=False):
     if expected is None or expected == 'noerr':
         return obs[0] != 'err'
+    if keys_as_set and expected[0] == 'keys' and obs[0] == 'keys':
+        return sorted(set(obs[1])) == list(expected[1])
     return list(expected) == list(obs[:len(expected)])
 
 
@@ -525,12 +539,15 @@ def run_sequence(backend, opts, ops, U):
             cfg = drv.coq_config()
             d = {}
             done = []
+            crashed = False
             for i, op in enumerate(ops):
                 want = oracle_step(d, op)
                 obs = apply_op(drv, op, U)
                 obs_all.append(obs)
                 done.append(op)
-                if fail is None and not satisfies(want, obs):
+                crashed = crashed or op[0] == 'pack_crash'
+                # after a killed pack list() may name a key twice (once from the pack, once from the file): same set
+                if fail is None and not satisfies(want, obs, keys_as_set=crashed and op[0] == 'list'):
                     fail = dict(step=i, op=op, expected=('no exception' if want in (None, 'noerr') else list(want)), observed=list(obs))
                 if obs[0] == 'err':
                     break                       # the store may be half-way through an operation: stop here
@@ -569,7 +586,10 @@ def gen_ops(rng, U, pack, reopen):
         elif r < 0.84:
             ops.append(('cleanup', sorted(rng.sample(range(1, nk + 1), rng.randint(0, nk)))))
         elif r < 0.92:
-            ops.append(('pack',) if pack else ('dump', rng.randint(1, nk), U.pick(rng)))
+            if pack and r >= 0.89:
+                ops.append(('pack_crash', rng.choice([0, 0, 1, 2])))
+            else:
+                ops.append(('pack',) if pack else ('dump', rng.randint(1, nk), U.pick(rng)))
         else:
             ops.append(('reopen',) if reopen else ('load', rng.randint(1, nk)))
     return ops
@@ -599,6 +619,8 @@ def op_lit(op):
         return 'SPack'
     if k == 'reopen':
         return 'SReopen'
+    if k == 'pack_crash':
+        return '(SPackCrash %s)' % natlit(op[1])
     raise ValueError(k)
 
 
@@ -650,7 +672,7 @@ def parse_ops(desc, U):
             ops.append(('dump', int(o[1]), U.by_name[o[2]]))
         elif o[0] in ('remove_many', 'cleanup'):
             ops.append((o[0], [int(i) for i in o[1]]))
-        elif o[0] in ('load', 'can_load', 'remove'):
+        elif o[0] in ('load', 'can_load', 'remove', 'pack_crash'):
             ops.append((o[0], int(o[1])))
         else:
             ops.append((o[0],))
@@ -676,6 +698,17 @@ CORPUS = [
                           ['cleanup', []], ['reopen'], ['list']]),
     ('redis-fake', None, [['dump', 1, 'None'], ['can_load', 1], ['load', 1], ['list'], ['remove', 1], ['remove', 1], ['load', 1]]),
     ('file', None, [['list'], ['can_load', 1], ['load', 1], ['remove', 1], ['cleanup', []], ['pack'], ['reopen'], ['list']]),
+    # `jug pack` killed before / while unlinking: keys in the pack AND files, then every way of removing them
+    ('file+pack', False, [['dump', 1, '1'], ['dump', 2, '[]'], ['pack_crash', 0], ['list'], ['load', 1], ['remove', 1], ['can_load', 1],
+                          ['load', 1], ['reopen'], ['can_load', 1], ['list'], ['remove', 1]]),
+    ('file+pack', False, [['dump', 1, '1'], ['dump', 2, '0'], ['dump', 3, 'None'], ['pack_crash', 1], ['remove_many', [2, 3, 2, 4]],
+                          ['list'], ['can_load', 2], ['can_load', 3], ['reopen'], ['list'], ['load', 1]]),
+    ('file+pack', True, [['dump', 1, 'arr-int64'], ['dump', 3, 'arr-object'], ['dump', 4, 'randbytes600'], ['pack_crash', 0],
+                         ['cleanup', [3]], ['list'], ['can_load', 1], ['load', 3], ['reopen'], ['list'], ['can_load', 1]]),
+    ('file+pack', False, [['dump', 1, '1'], ['dump', 2, '[]'], ['pack_crash', 0], ['dump', 1, "'a'"], ['load', 1], ['pack_crash', 5],
+                          ['load', 1], ['list'], ['pack'], ['list'], ['remove', 2], ['reopen'], ['list']]),
+    ('file+pack', False, [['dump', 1, 'arr-int64'], ['pack_crash', 0], ['pack_crash', 0], ['remove', 1], ['remove', 1], ['reopen'],
+                          ['can_load', 1], ['list']]),
 ]
 
 
@@ -851,10 +884,11 @@ def run(ck):
                     opts['compress'] = comp
                 ops = [('dump', 1, vi), ('load', 1), ('can_load', 1)]
                 if opts.get('pack'):
-                    ops += [('pack',), ('load', 1)]
+                    # compress_numpy off: a complete pack; on: a pack killed before its first unlink
+                    ops += [('pack_crash', 0) if comp else ('pack',), ('load', 1)]
                 if name != 'dict':
                     ops += [('reopen',), ('load', 1)]
-                ops += [('list',), ('remove', 1), ('can_load', 1)]
+                ops += [('list',), [('remove', 1), ('remove_many', [1, 2]), ('cleanup', [2])][vi % 3], ('can_load', 1)]
                 jobs.append((name, backend, opts, ops, True))
     nfixed = len(jobs)
     for i in range(nseq):
@@ -887,6 +921,14 @@ def run(ck):
                          + (':small' if (e['small_raw'] if (e['isarr'] and not opts.get('compress', True)) else e['small_enc']) else ':large'))
         if shape is not None and shape[0]:
             ck.count('final:has-packed-keys')
+        if backend == 'file' and any(op[0] == 'pack_crash' for op in done):
+            ck.count('history with a killed pack')
+            after = False
+            for op in done:
+                if op[0] == 'pack_crash':
+                    after = True
+                elif after and op[0] in ('remove', 'remove_many', 'cleanup', 'dump', 'pack'):
+                    ck.count('op after a killed pack:' + op[0])
         first_dump = next((i for i, op in enumerate(done) if op[0] == 'dump'), None)
         ck.distinct((name, opts.get('compress'), tuple(map(repr, done))), first_dump is not None and first_dump < len(done) - 1)
     for idx in (nfixed, nfixed + 2, (nfixed + len(jobs)) // 2, len(jobs) - 1):
